@@ -178,7 +178,7 @@ def lexicographic_less(fn, label):
     inst = label + "#length-tiebreak"
     req = "after a common prefix the shorter string comes first: strict `<` on the lengths"
     if len(tail) == 1:
-        t = fn.term(tail[0]["value"])
+        t = xterm(fn, tail[0]["value"], local_defs(fn))
         if t == ("op", "<", ("size", a), ("size", b)) or t == ("op", ">", ("size", b), ("size", a)):
             out.append(ok("R-SIB", inst, fn.loc(tail[0]["id"]), fn.qn, req, fmt_term(t)))
         else:
@@ -312,7 +312,7 @@ def mismatch_form(F, fn, label, expect_key):
                            "returns %s: the position was found with %s but is ordered by the unfolded characters (equal-ignoring-case names are then ordered inconsistently)" % (fmt_term(t), expect_key)))
     else:
         out.append(bad("R-SIB", inst, fn.loc(elem[0]["id"]), fn.qn, req, "returns %s" % fmt_term(t)))
-    tt = fn.term(tail[0]["value"])
+    tt = xterm(fn, tail[0]["value"], local_defs(fn))
     inst = label + "#length-tiebreak"
     req = "after a common prefix the shorter string comes first: strict `<` on the lengths"
     if tt == ("op", "<", ("size", a), ("size", b)) or tt == ("op", ">", ("size", b), ("size", a)):
